@@ -38,7 +38,8 @@ _SERVER_CODES = None
 def _server_codes():
     global _SERVER_CODES
     if _SERVER_CODES is None:
-        _SERVER_CODES = S.code_objects(ST.Pool, ST.Worker, ST.SocketServer_Threadpool.events)
+        _SERVER_CODES = S.code_objects(ST.Pool, ST.Worker, ST.SocketServer_Threadpool.events, ST.SocketServer_Threadpool.close,
+                                       ST.Housekeeper, SV.Daemon._housekeeping, SV.Daemon.close, SV.Daemon.shutdown)
     return _SERVER_CODES
 
 
@@ -51,7 +52,7 @@ class PoolWorld(World):
     STUB = ["threading.Event/Lock (simulated, baton scheduler)", "time (virtual clock)",
             "sockets + selector (in-memory)", "Worker.__hash__ (index based)", "jobs (scripted durations)"]
     PROBES = ["refused", "worker_retired", "worker_created", "close_with_running_jobs", "preempted",
-              "server_layer", "refused_on_wire", "worker_reused", "close_races_submission", "submit_after_close_refused", "stalled", "silent_client", "job_raised"]
+              "server_layer", "refused_on_wire", "worker_reused", "close_races_submission", "submit_after_close_refused", "stalled", "silent_client", "job_raised", "closed_during_housekeeper_round"]
     RULE = ("plan = (layer, THREADPOOL_SIZE, THREADPOOL_SIZE_MIN, per job: duration and gap before the next "
             "submission, optional close time, pre-emption probabilities); distinct = distinct interleaving digest "
             "(sequence of thread switches, pre-emption sites and socket events); non-trivial = at least one "
@@ -88,6 +89,12 @@ class PoolWorld(World):
         close = None
         if rng.random() < 0.5:
             close = {"after": rng.choice([0, 0, 0.001, 0.01, 0.05, 0.3])}
+            if layer == "server":
+                # how the application ends the daemon: shutdown() from another thread, or the request loop ends (loop condition)
+                # and the daemon is closed (what leaving a `with Daemon()` block does); optionally at the very moment the
+                # housekeeper thread makes one of its rounds
+                close["how"] = rng.choice(["shutdown", "close", "close"])
+                close["at_tick"] = rng.random() < 0.6
             if layer == "pool" and rng.random() < 0.4:
                 close["during"] = rng.randrange(njobs)      # close() in another thread while the accept thread keeps submitting
         p_stall = rng.choice([0.0, 0.0, 0.01, 0.03]) if layer == "pool" else rng.choice([0.0, 0.0, 0.0, 0.01])
@@ -324,13 +331,17 @@ class PoolWorld(World):
             check_bound("connection %d start" % c)
             return ocall(self)
 
+        denied = set()
+
         def pproc(self, job):
             st["in_service"] += 1
             st["last_in_service_before"] = st["in_service"] - 1
             try:
                 return oproc(self, job)
-            except BaseException:
+            except BaseException as x:
                 st["in_service"] -= 1
+                if isinstance(x, ST.NoFreeWorkersError):
+                    denied.add(getattr(getattr(job.csock, "sock", None), "conn", None))
                 raise
 
         ST.ClientConnectionJob.__call__ = jcall
@@ -340,7 +351,16 @@ class PoolWorld(World):
             d = SV.Daemon(host="127.0.0.1", port=0)
             d.register(_Echo(), "echo")
             addr = d.transportServer.sock.getsockname()
-            loop = threading.Thread(target=d.requestLoop, name="daemon-loop")
+            running = [True]
+            hk = {"n": 0}
+            ohk = SV.Daemon._housekeeping
+
+            def housekeeping(self):
+                hk["n"] += 1
+                return ohk(self)
+
+            SV.Daemon._housekeeping = housekeeping
+            loop = threading.Thread(target=d.requestLoop, args=(lambda: running[0],), name="daemon-loop")
             loop.start()
             results = {}
             overlap = [0, 0]
@@ -405,8 +425,9 @@ class PoolWorld(World):
                 t.join(120.0)
             sched.quiesce()
             ctx.nontrivial = bool(sched.choices) and (overlap[1] >= 2 or any(r["state"] == "refused" for r in results.values()))
-            nsilent = sum(1 for j in plan["jobs"] if j.get("silent"))
-            # each silent client can hold the accept loop (refusal handshake) for at most COMMTIMEOUT
+            # a silent client that found the pool full is refused by the accept loop itself, which waits for its CONNECT for at
+            # most COMMTIMEOUT: only those can delay others. A silent client that got a worker delays nobody.
+            nsilent = sum(1 for i, j in enumerate(plan["jobs"]) if j.get("silent") and results.get(i, {}).get("conn") in denied)
             wait_bound = 1.0 + plan.get("commtimeout", 0.0) * nsilent
             for i, r in sorted(results.items()):
                 stt = r["state"]
@@ -447,15 +468,33 @@ class PoolWorld(World):
             if plan["close"] is not None:
                 done = []
 
+                how = plan["close"].get("how", "shutdown")
+
                 def closer():
-                    d.shutdown()
+                    if how == "close":
+                        running[0] = False
+                        loop.join(30.0)            # the request loop notices its condition after a poll timeout at the latest
+                        if sched.sim_thread_of(loop).state != "done":
+                            done.append("loop")
+                            return
+                    if plan["close"].get("at_tick"):
+                        n0 = hk["n"]
+                        sched.block(lambda: hk["n"] > n0, 10.0, "wait-for-housekeeper-round")
+                        ctx.probe("closed_during_housekeeper_round")
+                    if how == "close":
+                        d.close()
+                    else:
+                        d.shutdown()
                     done.append(1)
 
                 t = threading.Thread(target=closer, name="closer")
                 t.start()
                 t.join(60.0)
+                if done == ["loop"]:
+                    ctx.violate("accept-loop-did-not-end", "", "the request loop did not return within 30 virtual seconds after its loop condition became false")
+                    return
                 if not done:
-                    ctx.violate("close-deadlock", "", "Daemon.shutdown() did not return within 60 virtual seconds")
+                    ctx.violate("close-deadlock", how, "Daemon.%s() did not return within 60 virtual seconds" % how)
                     return
                 sched.sleep(1.0)
                 sched.quiesce()
@@ -465,6 +504,8 @@ class PoolWorld(World):
         finally:
             ST.ClientConnectionJob.__call__ = ocall
             ST.Pool.process = oproc
+            if "ohk" in locals():
+                SV.Daemon._housekeeping = ohk
 
 
 def _read_exact(sk, n):
